@@ -16,7 +16,10 @@ def random_tree(rng, depth, dyadic=True):
         parts = rng.integers(1, 16, size=n).astype(float)
         dw = parts / parts.sum()
     else:
-        dw = rng.random(n) * 0.4
+        # user trees need not integrate to one, but their differential weights are a partition of at most the unit
+        # interval (sum dw <= 1); a tree with sum dw > 1 is malformed input (negative marginal weight) and outside the property
+        dw = rng.random(n)
+        dw = dw * float(rng.uniform(0.3, 1.0)) / float(dw.sum())
     out = []
     for i in range(n):
         kids = random_tree(rng, depth - 1, dyadic) if depth > 1 and rng.random() < 0.8 else []
@@ -196,8 +199,9 @@ def oracle_batch(args):
         last = max(evs, key=lambda e: e["time"])
         # below the depth of the sample tree a trajectory has an empty stack and hops in place like cumulative
         # FSSH (no clone): only the first `depth` events of a trace are spawns
-        depth = 2 if args.get("tree") is not None else len(args["stack"])
-        if len(evs) > depth:
+        # (the depth varies from branch to branch in explicit trees, so only a trace's FIRST event is known to be a spawn:
+        #  traces with exactly one event are judged)
+        if len(evs) != 1:
             continue
         snaps = list(t)
         own = [s for s in snaps if s["time"] > last["time"]]
